@@ -6,7 +6,7 @@
 (* Quilt operation must equal the same operation (SFOps / SFFrame) on Virtual(q).                                         *)
 (* ExtractPositions transcribes Quilt._extract: the axis key is turned into a Boolean selection over the axis map, the    *)
 (* selected members are visited in Bus order and each contributes its selected positions in its own order.                *)
-EXTENDS SFOps
+EXTENDS SFOps, SFGroup
 QLabel(q, m, lab) == IF q.retain THEN <<"t", <<q.members[m].label>> \o (IF lab[1] = "t" THEN lab[2] ELSE <<lab>>)>> ELSE lab
 AlongOf(q, m) == IF q.axis = 0 THEN q.members[m].f.index ELSE q.members[m].f.columns
 FlatCat(ss) == FoldLeft(LAMBDA a, b : a \o b, <<>>, ss)
@@ -52,26 +52,31 @@ QApply(cs) ==
                              [k |-> "rows", rows |-> [i \in 1..NRows(V) |-> [j \in 1..NCols(V) |-> Cast(V.cols[j].vals[i], dt)]]]
     (* iteration across the axis: one item per position on the Quilt axis, in order *)
     [] cs.op = "q_iter" -> [k |-> "items", items |-> IF cs.q.axis = 0 THEN [i \in 1..NRows(V) |-> RowAt(V, i - 1)] ELSE [j \in 1..NCols(V) |-> ColAt(V, j - 1)]]
+    (* windows: exactly the windows the window loop (SFGroup.Windows, the one C13 checks for Series and Frame) gives for the length of the Quilt axis; *)
+    (* a start shift, a label shift and incomplete windows (window_sized = FALSE) as for a Frame                                                       *)
+    [] cs.op \in {"q_iter_window", "q_iter_window_array"} /\ cs.sshift >= (IF cs.q.axis = 0 THEN NRows(V) ELSE NCols(V)) -> Unspecified
+         \* (as built a window that starts past the end makes the Quilt select an empty range of members, which raises UnboundLocalError / RuntimeError)
     [] cs.op = "q_iter_window" ->
          LET n == IF cs.q.axis = 0 THEN NRows(V) ELSE NCols(V)
-             starts == SelectSeq(SeqRange(n), LAMBDA p : p + cs.size <= n /\ p % cs.step = 0)
-             key(p) == <<"slice", <<"i", p>>, <<"i", p + cs.size>>, SNone>>
-         IN [k |-> "items", items |-> [w \in 1..Len(starts) |-> IF cs.q.axis = 0 THEN FrameIloc(V, key(starts[w]), KAll) ELSE FrameIloc(V, KAll, key(starts[w]))]]
+             ws == Windows(n, cs.size, cs.step, cs.sshift, cs.lshift, 0, cs.ws)
+             key(w) == <<"slice", <<"i", w.lo>>, <<"i", w.hi>>, SNone>>
+         IN [k |-> "items", items |-> [w \in 1..Len(ws) |-> IF cs.q.axis = 0 THEN FrameIloc(V, key(ws[w]), KAll) ELSE FrameIloc(V, KAll, key(ws[w]))]]
     (* array-valued windows: each window as ONE array in the resolved dtype of the window's columns, labelled (items form) by its last label *)
     [] cs.op = "q_iter_window_array" ->
          LET n == IF cs.q.axis = 0 THEN NRows(V) ELSE NCols(V)
-             starts == SelectSeq(SeqRange(n), LAMBDA p : p + cs.size <= n /\ p % cs.step = 0)
-             key(p) == <<"slice", <<"i", p>>, <<"i", p + cs.size>>, SNone>>
-             W(p) == IF cs.q.axis = 0 THEN FrameIloc(V, key(p), KAll) ELSE FrameIloc(V, KAll, key(p))
+             ws == Windows(n, cs.size, cs.step, cs.sshift, cs.lshift, 0, cs.ws)
+             key(w) == <<"slice", <<"i", w.lo>>, <<"i", w.hi>>, SNone>>
+             W(w) == IF cs.q.axis = 0 THEN FrameIloc(V, key(w), KAll) ELSE FrameIloc(V, KAll, key(w))
              (* cs.loose: the members are each homogeneous in a dtype of their OWN; which dtype a window over several of them resolves to  *)
              (* is then not derivable from one concatenated Frame, and the cells are compared by value (whole floats as ints)               *)
              Arr(w, p) == LET dt == IF cs.loose THEN <<"any", 0>> ELSE ResolveSeq([j \in 1..Len(w.cols) |-> w.cols[j].dt]) IN
                           [dt |-> dt, rows |-> [i \in 1..Len(w.index) |-> [j \in 1..Len(w.cols) |-> IF cs.loose THEN LooseCell(w.cols[j].vals[i]) ELSE Cast(w.cols[j].vals[i], dt)]],
-                           label |-> IF cs.items THEN (IF cs.q.axis = 0 THEN V.index[p + cs.size] ELSE V.columns[p + cs.size]) ELSE None]
-         IN [k |-> "rows_seq", wins |-> [w \in 1..Len(starts) |-> Arr(W(starts[w]), starts[w])]]
+                           label |-> IF cs.items THEN (IF cs.q.axis = 0 THEN V.index[p.label + 1] ELSE V.columns[p.label + 1]) ELSE None]
+         IN [k |-> "rows_seq", wins |-> [w \in 1..Len(ws) |-> Arr(W(ws[w]), ws[w])]]
     [] cs.op = "q_head" -> FrameIloc(V, <<"slice", SNone, <<"i", cs.count>>, SNone>>, KAll)                 \* head is about rows whatever the Quilt axis
 QDiff(e, a) ==
   IF e = a THEN "ok"
+  ELSE IF e.k = "unspecified" THEN "ok"
   ELSE IF e.k = "err" /\ a.k = "err" THEN "ok"                 \* which error class an invalid key raises is not part of the statement
   ELSE IF e.k = "items" /\ a.k = "items" THEN
          (IF Len(e.items) # Len(a.items) THEN "item_count"
